@@ -111,6 +111,11 @@ def exh(n):
     return sk.fam_exhaustive(n)
 
 
+def loops(n):
+    from .nlsym import skeletons as sk
+    return sk.fam_loop_bodies(n)
+
+
 def merge_cov(rep, scov, ksum=None):
     rep.coverage = scov
     if ksum is not None:
@@ -144,6 +149,23 @@ def run_C15(tier, seed):
     return rep.finish()
 
 
+def run_C08(tier, seed):
+    rep = Report("C08", tier, seed, "model_checking")
+    s = check_k("C08", tier, rep)
+    rep.coverage = k_coverage(s)
+    rep.assumptions = [
+        "the first character of the token under test (and, after white space / a comment, of what follows) is enumerated concretely; "
+        "the bytes after it are symbolic ASCII (0..=2/3/4 of them, every length), one symbolic byte precedes the token",
+        "non-ASCII text: a 16-character table (letters, non-letters, the five non-ASCII white-space characters, a 4-byte code point); "
+        "char::is_alphabetic / is_alphanumeric are modelled on that table (the Unicode tables of core are trusted)",
+        "string literal decoding: raw bodies of <= 3 (thorough: 4) characters over { backslash, quote, n, t, a, space } plus five longer concrete starts",
+        "whole texts longer than one token: 11 concrete shapes with symbolic letters/digits; position independence of Tokenizer::next is "
+        "checked by starting every single-token harness after one arbitrary consumed byte",
+        "outside the claim: symbolic non-ASCII bytes, texts longer than the stated bounds, number VALUES (str::parse) and the parser's use of the tokens (C07)",
+    ]
+    return rep.finish()
+
+
 def pairs(pred=None):
     from .nlsym import skeletons as sk
     return [x for x in sk.fam_pairs() if pred is None or pred(x[0])]
@@ -156,13 +178,14 @@ def sessions(n, seed=0, rnd_n=0, rnd_len=5):
 
 PROPS = {
     "C15": run_C15,
+    "C08": run_C08,
     "C01": s_property("C01", "translation_validation",
-                      lambda seed: fams("compose", "control", "calls", "scoping", "sequences", "builtins", "boundary", "gc", "undeclared") + op_forms_light() + exh(2) + rnd(seed, 60),
+                      lambda seed: fams("compose", "control", "calls", "scoping", "sequences", "builtins", "boundary", "gc", "undeclared") + op_forms_light() + exh(2) + loops(2) + rnd(seed, 60),
                       lambda seed: fams("compose", "control", "calls", "scoping", "sequences", "builtins", "boundary", "operator_forms", "gc")
-                      + exh(3) + rnd(seed, 600), k=True),
+                      + exh(3) + loops(3) + rnd(seed, 600), k=True),
     "C02": s_property("C02", "translation_validation",
-                      lambda seed: fams("control", "calls", "scoping", "boundary", "sequences", "undeclared", "gc") + exh(2) + rnd(seed, 40),
-                      lambda seed: fams("control", "calls", "scoping", "boundary", "sequences", "compose", "undeclared") + exh(3) + rnd(seed, 600),
+                      lambda seed: fams("control", "calls", "scoping", "boundary", "sequences", "undeclared", "gc") + exh(2) + loops(2) + rnd(seed, 40),
+                      lambda seed: fams("control", "calls", "scoping", "boundary", "sequences", "compose", "undeclared", "gc") + exh(3) + loops(3) + rnd(seed, 600),
                       k=True, kinds=("unsafe", "typing", "residue", "witness")),
     "C05": s_property("C05", "translation_validation",
                       lambda seed: fams("boundary", "builtins") + [x for x in fams("operator_forms") if ":mixed:" in x[0] or ":same:" in x[0]],
@@ -173,8 +196,8 @@ PROPS = {
                       lambda seed: fams("scoping", "undeclared") + rnd(seed, 30),
                       lambda seed: fams("scoping", "undeclared", "calls") + exh(3) + rnd(seed, 300), k=True),
     "C11": s_property("C11", "translation_validation",
-                      lambda seed: fams("control") + rnd(seed, 30),
-                      lambda seed: fams("control") + exh(3) + rnd(seed, 400), k=True),
+                      lambda seed: fams("control") + loops(2) + rnd(seed, 30),
+                      lambda seed: fams("control") + exh(3) + loops(3) + rnd(seed, 400), k=True),
     "C12": s_property("C12", "translation_validation",
                       lambda seed: fams("calls", "gc") + rnd(seed, 40),
                       lambda seed: fams("calls", "scoping") + rnd(seed, 400), k=True),
